@@ -236,7 +236,8 @@ impl StringDecoder for Unreal2StringDecoder {
 
             // When node decodes UCS2 it uses the UFT16LE encoding.
             // https://github.com/nodejs/node/blob/2aaa21f9f684484edb54be30589c4af0b923cdef/lib/buffer.js#L637-L645
-            let (result, _, invalid_sequences) = UTF_16LE.decode(string_data);
+            // (no BOM sniffing: the string is always UCS-2 LE, whatever its first character is)
+            let (result, invalid_sequences) = UTF_16LE.decode_without_bom_handling(string_data);
 
             if invalid_sequences {
                 return Err(PacketBad.context("UTF-8 string contained invalid character(s)"));
@@ -258,7 +259,8 @@ impl StringDecoder for Unreal2StringDecoder {
             length = position + 1;
 
             // Decode as latin1 (the first byte is the length of the string, not a character)
-            let (result, _, invalid_sequences) = WINDOWS_1252.decode(data.get(1 .. position).unwrap_or_default());
+            let (result, invalid_sequences) =
+                WINDOWS_1252.decode_without_bom_handling(data.get(1 .. position).unwrap_or_default());
 
             if invalid_sequences {
                 return Err(PacketBad.context("latin1 string contained invalid character(s)"));
